@@ -770,6 +770,18 @@ def oracle_step(ctx, case, vin, vout, op, exact, site):
             fail('map_indices_to_reference disagrees with the affine')
     elif not np.allclose(mi, pos[: len(mi)], rtol=2.0 ** -40, atol=2.0 ** -40):
         fail('map_indices_to_reference disagrees with the affine')
+    # ---- the inverse map of the result AND of the input (asked after the result was derived from it) invert their OWN affine
+    probe = jout[: min(len(jout), 8)].astype(np.float64)
+    for who, obj_, aff in (('result', vout, a_out), ('input', vin, a_in)):
+        refp = probe @ aff[:3, :3].T + aff[:3, 3]
+        try:
+            back = obj_.map_reference_to_indices(refp)
+        except Exception as e:  # noqa: BLE001
+            fail(f'map_reference_to_indices of the {who} raised {type(e).__name__}: {e}'[:200])
+            continue
+        if not np.allclose(back, probe, rtol=0, atol=2.0 ** -20):
+            fail(f'map_reference_to_indices of the {who} does not invert its own affine (after the operation)',
+                 got=np.asarray(back).tolist()[:3], want=probe.tolist()[:3])
     # ---- op-specific postconditions
     if kind == 'to_orientation' and exact:
         got = ''.join(x.value for x in vout.get_closest_patient_orientation())
